@@ -72,7 +72,8 @@ class SystemProblem:
         self.nets = {n: nets.Net(fields.TrigField(case["seed"] + 7 * i, self.D,
                                                   1 if "norm" in self.per_u[n] else 1 + i % 2),
                                  self.eqt, reads=("phi",)) for i, n in enumerate(self.names)}
-        self.specs = {e: eqs.SysSpec(case["seed"] + 13 * j, 1 + j % 2, self.names, self.D) for j, e in enumerate(self.eqnames)}
+        self.specs = {e: eqs.SysSpec(case["seed"] + 13 * j, 1 if case.get("scalar_equations") else 1 + j % 2, self.names, self.D)
+                      for j, e in enumerate(self.eqnames)}
         self.terms_avail = {"ode": ["ic", "obs"], "statio": ["boundary", "norm", "obs"],
                             "nonstatio": ["ic", "boundary", "norm", "obs"]}[kind]
         wmode = case.get("weights", "scalar")
